@@ -1351,6 +1351,8 @@ DLLEXPORT void reb_simulation_init(struct reb_simulation* r); // Used internally
 DLLEXPORT extern int reb_verif_state; // -1: not initialised, 0: off, 1: on
 DLLEXPORT void reb_verif_emit(const struct reb_simulation* const r, const char* event, int nargs, ...);
 #define REB_VERIF(r, event, nargs, ...) do{ if (reb_verif_state!=0) reb_verif_emit(r, event, nargs, __VA_ARGS__); }while(0)
+DLLEXPORT void reb_verif_yield(const char* site); // sleeps at the named site if REBOUND_VERIF_YIELD=<site>:<usec> (only when hooks are on)
+#define REB_VERIF_YIELD(site) do{ if (reb_verif_state!=0) reb_verif_yield(site); }while(0)
 DLLEXPORT void reb_simulation_update_acceleration(struct reb_simulation* r); // Used by REBOUNDx
 DLLEXPORT void reb_simulation_update_tree(struct reb_simulation* const r);
 DLLEXPORT int reb_simulation_get_next_message(struct reb_simulation* const r, char* const buf); // Get the next stored warning message. Used only if save_messages==1. Return value is 0 if no messages are present, 1 otherwise.
